@@ -114,6 +114,46 @@ CASES = [
     ("svd usv product", "lambda anp, x: (lambda u, s, v: anp.dot(u * s, v))(*anp.linalg.svd(x, full_matrices=False))", [((3, 2), "R")], (0,)),
     ("eig vals", "lambda anp, x: anp.real(anp.linalg.eig(x)[0] * anp.conj(anp.linalg.eig(x)[0]))", [((2, 2), "R")], (0,)),
 ]
+for _ax in ((0, 1), (1, 0), (0, 2), (2, 0), (1, 2), (2, 1), (-1, 0), (0, -1)):
+    CASES.append((f"norm nuc axis={_ax}", f"lambda anp, x: anp.linalg.norm(x, 'nuc', axis={_ax})", [((2, 3, 2), "R")], (0,)))
+    CASES.append((f"norm fro axis={_ax}", f"lambda anp, x: anp.linalg.norm(x, 'fro', axis={_ax})", [((2, 3, 2), "R")], (0,)))
+    CASES.append((f"norm default axis={_ax}", f"lambda anp, x: anp.linalg.norm(x, axis={_ax})", [((2, 3, 2), "R")], (0,)))
+for _ax in (0, 1, -1, 2):
+    CASES.append((f"norm vec axis={_ax}", f"lambda anp, x: anp.linalg.norm(x, axis={_ax})", [((2, 3, 2), "R")], (0,)))
+    CASES.append((f"norm ord=3 axis={_ax}", f"lambda anp, x: anp.linalg.norm(x, 3, axis={_ax})", [((2, 3, 2), "P")], (0,)))
+CASES += [
+    ("linspace endpoint=False", "lambda anp, x, y: anp.linspace(x, y, 4, endpoint=False)", [((), "R"), ((), "R")], (0, 1)),
+    ("linspace num=5", "lambda anp, x, y: anp.linspace(x, y, 5)", [((), "R"), ((), "R")], (0, 1)),
+    ("linspace num kw", "lambda anp, x, y: anp.linspace(x, y, num=3)", [((), "R"), ((), "R")], (0, 1)),
+    ("pad constant_values", "lambda anp, x: anp.pad(x, ((1, 2), (0, 1)), 'constant', constant_values=3.0)", [((2, 2), "R")], (0,)),
+    ("where numeric cond", f"lambda anp, x, y: anp.where({_np}.array([2.0, 0.0, 0.5]), x, y)", [((3,), "R"), ((3,), "R")], (0, 1)),
+    ("where int cond", f"lambda anp, x, y: anp.where({_np}.array([3, 0, 1]), x, y)", [((3,), "R"), ((3,), "R")], (0, 1)),
+    ("cumsum axis=-1 2-D", "lambda anp, x: anp.cumsum(x, axis=-1)", [((2, 3), "R")], (0,)),
+    ("cumsum axis=-2 3-D", "lambda anp, x: anp.cumsum(x, axis=-2)", [((2, 3, 2), "R")], (0,)),
+    ("diff n=2 axis=0", "lambda anp, x: anp.diff(x, n=2, axis=0)", [((4, 2), "R")], (0,)),
+    ("det batched 3-D", "lambda anp, x: anp.linalg.det(x)", [((2, 3, 3), "R")], (0,)),
+    ("slogdet batched", "lambda anp, x: anp.linalg.slogdet(x)[1]", [((2, 2, 2), "R")], (0,)),
+    ("solve batched", "lambda anp, x, y: anp.linalg.solve(x, y)", [((2, 2, 2), "R"), ((2, 2, 1), "R")], (0, 1)),
+    ("pinv wide", "lambda anp, x: anp.linalg.pinv(x)", [((2, 3), "R")], (0,)),
+    ("eigh UPLO=U", "lambda anp, x: anp.linalg.eigh(x + x.T, 'U')[0]", [((3, 3), "R")], (0,)),
+    ("cholesky batched", "lambda anp, x: anp.linalg.cholesky(anp.matmul(x, anp.swapaxes(x, -1, -2)) + 2 * anp.eye(2))", [((2, 2, 2), "R")], (0,)),
+    ("svd u", "lambda anp, x: anp.abs(anp.linalg.svd(x, full_matrices=False)[0])", [((3, 2), "R")], (0,)),
+    ("svd vt", "lambda anp, x: anp.abs(anp.linalg.svd(x, full_matrices=False)[2])", [((2, 3), "R")], (0,)),
+    ("svd batched s", "lambda anp, x: anp.linalg.svd(x, compute_uv=False)", [((2, 2, 3), "R")], (0,)),
+    ("eig vecs", "lambda anp, x: anp.real(anp.linalg.eig(x + x.T + 3 * anp.eye(2))[1] ** 2)", [((2, 2), "R")], (0,)),
+    ("std axis tuple keepdims", "lambda anp, x: anp.std(x, axis=(0, 2), keepdims=True)", [((2, 3, 2), "R")], (0,)),
+    ("var ddof axis=-1", "lambda anp, x: anp.var(x, axis=-1, ddof=1)", [((2, 3), "R")], (0,)),
+    ("prod axis=-1 keepdims", "lambda anp, x: anp.prod(x, axis=-1, keepdims=True)", [((2, 3), "P")], (0,)),
+    ("sort 1-D", "lambda anp, x: anp.sort(x)", [((4,), "P")], (0,)),
+    ("partition 1-D", "lambda anp, x: anp.partition(x, 1)", [((4,), "P")], (0,)),
+    ("rot90 k=-1", "lambda anp, x: anp.rot90(x, -1)", [((2, 3), "R")], (0,)),
+    ("roll tuple", "lambda anp, x: anp.roll(x, 2, axis=-1)", [((2, 3), "R")], (0,)),
+    ("kron 2-D", "lambda anp, x, y: anp.kron(x, y)", [((2, 2), "R"), ((2, 3), "R")], (0, 1)),
+    ("cross axis", "lambda anp, x, y: anp.cross(x, y, axis=0)", [((3, 2), "R"), ((3, 2), "R")], (0, 1)),
+    ("einsum implicit out", "lambda anp, x, y: anp.einsum('ij,jk', x, y)", [((2, 3), "R"), ((3, 2), "R")], (0, 1)),
+    ("einsum repeated idx", "lambda anp, x, y: anp.einsum('iij,j->i', x, y)", [((2, 2, 3), "R"), ((3,), "R")], (0, 1)),
+    ("tensordot axes swapped", "lambda anp, x, y: anp.tensordot(x, y, axes=([2, 0], [0, 1]))", [((2, 3, 2), "R"), ((2, 2, 3), "R")], (0, 1)),
+]
 for _uf in ("arctan2", "hypot", "logaddexp", "logaddexp2", "power", "maximum", "minimum", "fmax", "fmin", "mod", "remainder", "true_divide", "subtract"):
     for _sa, _sb in (((2, 3), (3,)), ((2, 1), (1, 3)), ((), (2,)), ((2, 3), ()), ((3,), (2, 3)), ((1, 3), (2, 1))):
         CASES.append((f"{_uf} bcast {_sa}x{_sb}", f"lambda anp, x, y: anp.{_uf}(x, y)", [(_sa, "P"), (_sb, "P")], (0, 1)))
